@@ -488,6 +488,30 @@ Definition key_busy (prev : list rstatus) (k : N) : bool :=
 
 Definition nth_status (sn : list rstatus) (c : N) : rstatus := nth (N.to_nat c) sn QTransient.
 
+Definition status_startable (q : rstatus) : bool :=
+  match q with QIdle | QRet _ => true | _ => false end.
+
+(* what a Start of k may answer, given who was busy with k before and what must be cached *)
+Definition start_ok (now : N) (cache : N -> option (N * N)) (prev : list rstatus) (k : N) (q : rstatus) : bool :=
+  if key_busy prev k
+  then match q with QRet RPending => true | _ => false end          (* pending is reported *)
+  else match q with
+       | QRet RPending => false                                      (* nothing was pending *)
+       | _ => match cache k with
+              | Some (e, exp) =>
+                  if cexpired now exp then true
+                  else match q with QRet (RErr e') => N.eqb e e' | _ => false end
+              | None => true
+              end
+       end.
+
+Definition cache_upd (cf : rcfg) (now : N) (cache : N -> option (N * N))
+           (res : option (N * bool)) (prevq : rstatus) : N -> option (N * N) :=
+  match res, prevq with
+  | Some (e, nf), QRun k => upd cache k (Some (e, now + (if nf then c_nf cf else c_err cf)))
+  | _, _ => cache
+  end.
+
 Fixpoint rc_check_from (cf : rcfg) (now : N) (cache : N -> option (N * N)) (prev : list rstatus)
          (ms : list rmac) (obs : list (list rstatus)) : bool :=
   match ms, obs with
@@ -497,27 +521,12 @@ Fixpoint rc_check_from (cf : rcfg) (now : N) (cache : N -> option (N * N)) (prev
       match m with
       | QTick dt => rc_check_from cf (now + dt) cache sn ms' obs'
       | QStart c k =>
-          let q := nth_status sn c in
-          (if negb (match nth_status prev c with QIdle | QRet _ => true | _ => false end)
-           then true                                    (* c is inside Start already: not enabled *)
-           else if key_busy prev k
-           then match q with QRet RPending => true | _ => false end          (* pending is reported *)
-           else match q with
-                | QRet RPending => false                                      (* nothing was pending *)
-                | _ => match cache k with
-                       | Some (e, exp) =>
-                           if cexpired now exp then true
-                           else match q with QRet (RErr e') => N.eqb e e' | _ => false end
-                       | None => true
-                       end
-                end)
+          (if status_startable (nth_status prev c)
+           then start_ok now cache prev k (nth_status sn c)
+           else true)                               (* c is inside Start already: not enabled *)
           && rc_check_from cf now cache sn ms' obs'
       | QFinish c res _ =>
-          let cache' := match res, nth_status prev c with
-                        | Some (e, nf), QRun k => upd cache k (Some (e, now + (if nf then c_nf cf else c_err cf)))
-                        | _, _ => cache
-                        end in
-          rc_check_from cf now cache' sn ms' obs'
+          rc_check_from cf now (cache_upd cf now cache res (nth_status prev c)) sn ms' obs'
       end
   | _, _ => false
   end.
